@@ -99,6 +99,7 @@ type closure struct {
 }
 
 type Exec struct {
+	visitedVars   []*types.Var // ghost visited sets of the enclosing range-over-map loops
 	patAbs        bool
 	splitEnds     map[*State][]*State
 	patSelect     bool
@@ -2305,10 +2306,72 @@ func (x *Exec) execRange(st *State, s *ast.RangeStmt, label string) *State {
 		x.note("range-over-map")
 		m := x.eval(st, s.X)
 		lp := &loopParts{node: s, label: label, bodyN: s.Body}
-		more := func(st *State) *Term { return x.b.Fresh("map.more", BoolSort) }
+		// ghost set of the keys already visited (int and string keys): every
+		// iteration takes a key of the map that was not visited yet, and the loop
+		// ends when every key of the map was visited. Invariants refer to it as
+		// visited(k).
+		var visVar *types.Var
+		var ghostSetT types.Type
+		switch kindOf(u.Key()) {
+		case kInt:
+			if w, _ := intInfo(u.Key()); w == 64 {
+				ghostSetT = x.eng.typeByName("seqof:bool")
+			}
+		case kString:
+			ghostSetT = x.eng.typeByName("strmapof:bool")
+		}
+		if ghostSetT != nil {
+			visVar = types.NewVar(s.Pos(), x.eng.pkg.Types, fmt.Sprintf("rv%d", x.loopOrdinal(s)), ghostSetT)
+			empty := x.zeroValue(ghostSetT)
+			st.env[visVar] = empty
+			lp.extraObjs = append(lp.extraObjs, visVar)
+			x.visitedVars = append(x.visitedVars, visVar)
+			defer func() { x.visitedVars = x.visitedVars[:len(x.visitedVars)-1] }()
+		}
+		allVisited := func(st *State) *Term {
+			// forall k. haskey(m,k) ==> visited[k]
+			kt := u.Key()
+			kv := &Value{T: kt, L: map[string]*Term{}}
+			var bound []*Term
+			for _, l := range x.leavesOf(kt) {
+				x.nameCount["$q"]++
+				bv := x.b.Var(fmt.Sprintf("q!mk!%d", x.nameCount["$q"]), l.sort)
+				kv.L[l.path] = bv
+				bound = append(bound, bv)
+			}
+			has := x.mapHas(st, m, u, kv)
+			vis := x.b.Select(st.env[visVar].L["arr"], kv.scalar())
+			return x.b.Forall(bound, x.b.Implies(has, vis), []*Term{vis}, []*Term{has})
+		}
+		more := func(st *State) *Term {
+			if visVar != nil {
+				return x.b.Not(allVisited(st))
+			}
+			return x.b.Fresh("map.more", BoolSort)
+		}
 		lp.cond = more
 		lp.body = func(st *State) *State {
-			if kObj != nil {
+			if kObj != nil || visVar != nil {
+				kt := u.Key()
+				kv := x.freshValue(kt, "mapkey")
+				if kObj != nil {
+					st.env[kObj] = kv
+				}
+				if len(kv.L) == 1 {
+					x.assume(st, x.mapHas(st, m, u, kv))
+					if visVar != nil {
+						cur := st.env[visVar]
+						x.assume(st, x.b.Not(x.b.Select(cur.L["arr"], kv.scalar())))
+						nv := &Value{T: cur.T, L: map[string]*Term{"arr": x.b.Store(cur.L["arr"], kv.scalar(), x.b.True())}}
+						st.env[visVar] = nv
+					}
+				}
+				if kObj == nil {
+					kObj = types.NewVar(s.Pos(), x.eng.pkg.Types, "_mapkey", kt)
+					st.env[kObj] = kv
+				}
+			}
+			if false {
 				kv := x.freshValue(kObj.Type(), "mapkey")
 				st.env[kObj] = kv
 				if len(kv.L) == 1 {
